@@ -1,7 +1,96 @@
-import Rangers.Model.Trie
-/-! C02 property theorems (under construction). -/
+import Rangers.Proofs.TrieRun
+/-!
+# C02 — the state trie root is the canonical Merkle-Patricia commitment of its content
+
+Theorems about `Rangers.Trie` (Model/Trie.lean), the model `Drive/C02.lean` executes and the
+correspondence run compares with `src/storage/trie`.  `H` (the node hash) is a parameter:
+every statement holds for every hash function.
+
+Vocabulary: `WFRoot t` = `t` is empty or in minimal form (no short-below-short, no full node with
+fewer than two occupied slots, no empty value, values only behind a terminator);
+`content t κ` = value stored under hex path `κ`; `run ops` = model state after the history
+`ops`; `finalMap ops` = the map the history defines (last write wins; delete / empty write remove).
+-/
 namespace Rangers.Props.C02
 open Rangers Rangers.Trie
+
+/-! ## insert / delete keep the minimal form and do to the content what they say -/
+
+theorem insert_wf (t : Node) (key : Key) (val : Bytes) (ht : WFRoot t) (hk : ValidKey key) (hv : val ≠ []) :
+    WF (insert t key (.value val)).2 :=
+  Trie.insert_wf val hv t key ht hk
+
+theorem delete_wf (t : Node) (key : Key) (ht : WFRoot t) (hk : ValidKey key) :
+    WFRoot (delete t key).2 :=
+  Trie.delete_wf t key ht hk
+
+theorem toMap_insert (t : Node) (key : Key) (val : Bytes) (ht : WFRoot t) (hk : ValidKey key) (k' : Key) :
+    content (insert t key (.value val)).2 k' = if k' = key then some val else content t k' :=
+  content_insert val t key ht hk k'
+
+theorem toMap_delete (t : Node) (key : Key) (ht : WFRoot t) (hk : ValidKey key) (k' : Key) :
+    content (delete t key).2 k' = if k' = key then none else content t k' :=
+  content_delete t key ht hk k'
+
+/-- `Trie.TryGet` reads the abstract content (the association list the iterator returns). -/
+theorem get_eq_lookup (t : Node) (k : Key) (ht : WFRoot t) (hk : ValidKey k) :
+    get t k = (iter t).lookup k :=
+  get_eq_content t k ht hk
+
+/-- the exported API only ever produces terminated keys -/
+theorem api_keys_valid (k : Bytes) : ValidKey (keybytesToHex k) := validKey_keybytesToHex k
+
+-- non-vacuity: a three-key trie with a key that is a prefix of another satisfies the hypotheses
+example : WFRoot (run [.upd [0x12] [1], .upd [0x12, 0x34] [2], .upd [0x13] [3]]) := (represents_run _).wf
+example : ValidKey (keybytesToHex [0x12, 0x34]) := api_keys_valid _
+
+/-! ## the in-memory form is a function of the content -/
+
+/-- **uniqueness**: two minimal-form tries with the same reads are the same tree. -/
+theorem wf_unique (a b : Node) (ha : WFRoot a) (hb : WFRoot b)
+    (h : ∀ κ, ValidKey κ → get a κ = get b κ) : a = b := by
+  apply wf_unique_iter a b ha hb
+  apply sorted_ext _ _ (sortedKeys_iter a) (sortedKeys_iter b)
+  intro κ
+  show content a κ = content b κ
+  by_cases hκ : ValidKey κ
+  · rw [← get_eq_content a κ ha hκ, ← get_eq_content b κ hb hκ, h κ hκ]
+  · have hnone : ∀ t, WFRoot t → content t κ = none := by
+      intro t ht
+      apply lookup_none_of_not_mem
+      intro e he heq
+      rcases ht with rfl | ht
+      · simp [iter] at he
+      · exact hκ (heq ▸ (iter_valid t ht e he).1)
+    rw [hnone a ha, hnone b hb]
+
+/-- the trie a history leaves behind is in minimal form -/
+theorem run_wf (ops : List Op) : WFRoot (run ops) := (represents_run ops).wf
+
+/-- **reads return the last write**: after any history (including hash / commit / reopen /
+    cache-limit steps) `Get k` is the last value written to `k`, absent after delete or empty write. -/
+theorem reads_last_write (ops : List Op) (k : Bytes) : lookup (run ops) k = finalMap ops k := by
+  unfold lookup
+  rw [get_eq_content _ _ (run_wf ops) (api_keys_valid k)]
+  exact (represents_run ops).agree k
+
+/-- **history independence of the tree**: two histories that define the same map leave the
+    very same trie behind. -/
+theorem run_history_independent (ops₁ ops₂ : List Op) (h : finalMap ops₁ = finalMap ops₂) :
+    run ops₁ = run ops₂ :=
+  represents_unique (represents_run ops₁) (h ▸ represents_run ops₂)
+
+/-- **history independence of the root**, for every hash function `H`. -/
+theorem root_history_independent (H : Bytes → Bytes) (ops₁ ops₂ : List Op)
+    (h : finalMap ops₁ = finalMap ops₂) : rootHash H (run ops₁) = rootHash H (run ops₂) := by
+  rw [run_history_independent ops₁ ops₂ h]
+
+-- non-vacuity: different orders, an overwrite, a delete and interleaved commits define the same map
+example : finalMap [.upd [1] [7], .commit, .upd [2] [8], .upd [3] [9], .del [3], .reopen]
+        = finalMap [.upd [2] [5], .upd [1] [7], .dbcommit, .upd [2] [8], .cachelimit 0] := by
+  funext k
+  simp only [finalMap, List.foldl, specStep]
+  by_cases h1 : k = [1] <;> by_cases h2 : k = [2] <;> by_cases h3 : k = [3] <;> simp_all
 
 theorem rootHash_empty (H : Bytes → Bytes) : rootHash H .nil = emptyRoot := rfl
 
